@@ -18,6 +18,7 @@ package did
 //@ // parsedDID names the value Parse returns (Parse is a function of its argument)
 //@ ghost func parsedDID(s string) DID
 //@ ghost func pubKeyOf(d DID) crypto.PubKey
+//@ ghost func pubKeyErr(d DID) error
 //@
 //@ // ---- C16: the text form ------------------------------------------------------------------------------------------
 //@ // what Parse accepts, and what it returns, as functions of the text
@@ -58,6 +59,7 @@ package did
 //@   requires wfDID(d)
 //@   use uv_len
 //@   assumes result1 == nil ==> result0 != nil && result0 == pubKeyOf(d)
+//@   assumes result1 == pubKeyErr(d)
 //@   // one key, one DID: a secp256k1 identifier yields a key only in the compressed form (33 bytes) that FromPubKey produces
 //@   ensures [C16] canonical: result1 == nil && d.code == Secp256k1 ==> len(d.bytes) == len(uvarint(d.code)) + 33
 //@   ensures [C09,C16] total: true
